@@ -34,7 +34,7 @@ m = {
         "guard": "verif",
         "enable": "go build -tags verif (the harness module /verif/harness replaces the bb-remote-execution module by /repo and is built with the tag)",
         "baseline_off_cmd": "cd /repo && GOFLAGS=-mod=mod go test -json -vet=off -count=1 -timeout 25m ./...",
-        "source_commits": src["hook_commits"],
+        "source_commits": subprocess.check_output(["git", "-C", "/repo", "log", "--format=%h", "--grep=^verif hook"], text=True).split() or src["hook_commits"],
         "add_only": True,
     },
     "engines": src["engines"],
